@@ -617,16 +617,22 @@ Proof.
     apply nth_In. unfold zlen in *. lia.
 Qed.
 
+Lemma sample_with_in x picks l : In x (sample_with picks l) ->
+  exists i, nth (Z.to_nat i) l 0 = x /\ In i picks.
+Proof.
+  unfold sample_with. intros Hx. apply (proj1 (sort_in _ _)) in Hx. apply in_map_iff in Hx. exact Hx.
+Qed.
+
 Lemma p_sample_weighted picks l wpos :
   length wpos = length l -> picks_weightedb wpos picks = true ->
   forall x, In x (sample_with picks l) ->
   exists i, (i < length l)%nat /\ nth i l 0 = x /\ nth i wpos false = true.
 Proof.
-  intros HL HW x Hx. unfold sample_with in Hx. apply (proj1 (sort_in _ _)) in Hx. apply in_map_iff in Hx.
-  destruct Hx as [i [<- Hi]]. unfold picks_weightedb in HW. rewrite forallb_forall in HW.
+  intros HL HW x Hx. apply sample_with_in in Hx.
+  destruct Hx as [i [E Hi]]. unfold picks_weightedb in HW. rewrite forallb_forall in HW.
   specialize (HW i Hi). apply andb_true_iff in HW. destruct HW as [HW H3].
   apply andb_true_iff in HW. destruct HW as [H1 H2]. apply Z.leb_le in H1. apply Z.ltb_lt in H2.
-  exists (Z.to_nat i). split; [lia|]. split; [reflexivity | exact H3].
+  exists (Z.to_nat i). split; [lia|]. split; [exact E | exact H3].
 Qed.
 
 (* no position of zero weight is ever returned (positions are identified by their index value: NoDup) *)
@@ -683,4 +689,53 @@ Lemma membersb_sound s u : membersb s u = true -> forall x, In x s -> In x u.
 Proof.
   unfold membersb. rewrite forallb_forall. intros H x Hx. specialize (H x Hx).
   apply existsb_exists in H. destruct H as [y [Hy E]]. apply Z.eqb_eq in E. subst y. exact Hy.
+Qed.
+
+(* ================================================================================================ *)
+(* the statements of Properties_C12 that combine several lemmas                                      *)
+(* ================================================================================================ *)
+Definition permutes (shuffle : Z -> nat -> list Z -> list Z) : Prop :=
+  forall s c l, Permutation (shuffle s c l) l.
+
+Lemma s_kfold_sizes : forall shuffle, permutes shuffle -> forall seed folds l,
+  1 <= folds ->
+  map (fun p => zlen (snd p)) (kfold shuffle seed folds l) =
+  map (fun f => if f + 1 <? folds then zlen l / folds else zlen l / folds + zlen l mod folds) (zrange folds) /\
+  Forall (fun p => zlen l / folds <= zlen (snd p) < zlen l / folds + folds) (kfold shuffle seed folds l).
+Proof.
+  intros shuffle H seed folds l Hf. split.
+  - exact (p_kfold_valid_sizes shuffle H seed folds l Hf).
+  - exact (p_kfold_valid_sizes_close shuffle H seed folds l Hf).
+Qed.
+
+Lemma s_random_pair : forall shuffle, permutes shuffle -> forall seed folds perc l tr va,
+  NoDup l -> 0 <= perc <= 100 -> In (tr, va) (random_split shuffle seed folds perc l) ->
+  Permutation (tr ++ va) l /\ (forall x, In x tr -> ~ In x va) /\
+  StronglySorted Z.le tr /\ StronglySorted Z.le va.
+Proof.
+  intros shuffle H seed folds perc l tr va HN Hp Hin.
+  exact (proj1 (p_random_pair shuffle H seed folds perc l tr va HN Hp Hin)).
+Qed.
+
+Lemma s_random_size : forall shuffle, permutes shuffle -> forall seed folds perc l tr va,
+  NoDup l -> 0 <= perc <= 100 -> In (tr, va) (random_split shuffle seed folds perc l) ->
+  let t := zlen tr in
+  t = (perc * zlen l + 50) / 100 /\ zlen va = zlen l - t /\
+  100 * t <= perc * zlen l + 50 < 100 * t + 100 /\ 0 <= t <= zlen l.
+Proof.
+  intros shuffle H seed folds perc l tr va HN Hp Hin.
+  destruct (p_random_pair shuffle H seed folds perc l tr va HN Hp Hin) as (_ & Ht & Hv).
+  cbv zeta. rewrite Ht, Hv. unfold rs_ts. repeat split; try reflexivity;
+    try apply (rs_ts_round (zlen l) perc); try apply (rs_ts_bounds (zlen l) perc (zlen_nonneg l) Hp).
+Qed.
+
+Lemma s_weighted_support : forall picks l wpos,
+  NoDup l -> length wpos = length l -> picks_weightedb wpos picks = true ->
+  (forall x, In x (sample_with picks l) ->
+     exists i, (i < length l)%nat /\ nth i l 0 = x /\ nth i wpos false = true) /\
+  (forall j, (j < length l)%nat -> nth j wpos false = false -> ~ In (nth j l 0) (sample_with picks l)).
+Proof.
+  intros picks l wpos HN HL HW. split.
+  - exact (p_sample_weighted picks l wpos HL HW).
+  - intros j. exact (p_sample_weighted_support picks l wpos j HN HL HW).
 Qed.
